@@ -80,9 +80,13 @@ def spell(v, rnd):
     return lit(v)
 
 
-def instantiate(e, vals, mode, rnd=None, valnames=None):
-    """leaves -> literal (K), val name (K via val), variable (R)"""
+def instantiate(e, vals, mode, rnd=None, valnames=None, eff=None):
+    """leaves -> literal (K), val name (K via val), variable (R); the leaf with index `eff` is wrapped in a call of
+    tick(), which writes a byte and returns its argument, in every variant: the call must be made (or skipped by
+    short-circuit evaluation) in the same way however the other operands are supplied"""
     k = e[0]
+    if k == "leaf" and eff is not None and e[1] == eff:
+        return ("call", "tick", [instantiate(e, vals, mode, rnd, valnames, None)])
     if k == "leaf":
         i = e[1]
         m = mode if mode != "M" else rnd.choice(["K", "R", "V"])
@@ -96,18 +100,24 @@ def instantiate(e, vals, mode, rnd=None, valnames=None):
     if k == "num":
         return e
     if k == "un":
-        return ("un", e[1], instantiate(e[2], vals, mode, rnd, valnames))
-    return ("bin", e[1], instantiate(e[2], vals, mode, rnd, valnames), instantiate(e[3], vals, mode, rnd, valnames))
+        return ("un", e[1], instantiate(e[2], vals, mode, rnd, valnames, eff))
+    return ("bin", e[1], instantiate(e[2], vals, mode, rnd, valnames, eff), instantiate(e[3], vals, mode, rnd, valnames, eff))
 
 
-def program(e, vals, mode, context, rnd, boolean):
+TICK = {"kind": "func", "name": "tick", "formals": [("val", "x")], "locals": [],
+        "body": ("seq", [("sysst", 1, [("num", 116), ("num", 0)]), ("ret", ("var", "x"))])}
+
+
+def program(e, vals, mode, context, rnd, boolean, eff=None):
     valnames = set(i for i in range(len(vals)) if rnd.random() < 0.3)
-    E = instantiate(e, vals, mode, rnd, valnames)
+    E = instantiate(e, vals, mode, rnd, valnames, eff)
     globs = [("val", "c%d" % i, spell(v, rnd)) for i, v in enumerate(vals)]
     globs += [("var", "x%d" % i) for i in range(len(vals))] + [("var", "r"), ("array", "tab", ("num", 8))]
     init = [("ass", ("var", "x%d" % i), lit(v)) for i, v in enumerate(vals)]
     init += [("ass", ("sub", "tab", ("num", i)), ("num", 1000 + i)) for i in range(8)]
     procs = [{"kind": "func", "name": "id", "formals": [("val", "x")], "locals": [], "body": ("ret", ("var", "x"))}]
+    if eff is not None:
+        procs.append(TICK)
     if context == "exitarg":
         body = [("sysst", 0, [E])]
     elif context == "assign":
@@ -237,18 +247,20 @@ def klass(op, vals, e):
     return op
 
 
-def make_group(e, vals, context, rnd, boolean, op):
+def make_group(e, vals, context, rnd, boolean, op, eff=None):
     variants = []
+    if context == "valdecl":
+        eff = None          # the initialiser of a val has to be constant
     modes = ["K", "R"] + (["M"] if nleaves(e) > 1 else []) + (["M"] if nleaves(e) > 2 else [])
     for m in modes:
-        variants.append((m, xref.render_program(program(e, vals, m, context, rnd, boolean))))
+        variants.append((m, xref.render_program(program(e, vals, m, context, rnd, boolean, eff))))
     env = {i: v for i, v in enumerate(vals)}
     try:
         w = wrap_eval(e, env)
     except Exception:
         w = None
     return {"variants": variants, "op": op, "context": context, "vals": vals, "wrap": w,
-            "text": xref.render_expr(instantiate(e, vals, "K", rnd, set())), "klass": klass(op, vals, e)}
+            "text": xref.render_expr(instantiate(e, vals, "K", rnd, set(), eff)), "klass": klass(op, vals, e) + ("+call" if eff is not None else "")}
 
 
 def groups_for(tier, rnd):
@@ -276,6 +288,8 @@ def groups_for(tier, rnd):
         for a, b in itertools.product([0, 1], [0, 1]):
             for ctx in CONTEXTS:
                 groups.append(make_group(("bin", op, ("leaf", 0), ("leaf", 1)), [a, b], ctx, rnd, True, op))
+                for eff in (0, 1):
+                    groups.append(make_group(("bin", op, ("leaf", 0), ("leaf", 1)), [a, b], ctx, rnd, True, op, eff))
     for a in vals:
         for ctx in (CONTEXTS if tier != "quick" else CONTEXTS[:3]):
             e = ("un", "-", ("leaf", 0))
@@ -307,7 +321,8 @@ def groups_for(tier, rnd):
             w = wrap_eval(e, {i: v for i, v in enumerate(vs)})
             if not (0 <= w < 8):
                 ctx = "assign"
-        groups.append(make_group(e, vs, ctx, rnd, boolean, "tree"))
+        eff = rnd.randrange(len(vs)) if rnd.random() < 0.3 else None     # at most one call: the order of two would be open
+        groups.append(make_group(e, vs, ctx, rnd, boolean, "tree", eff))
     return groups
 
 
